@@ -109,3 +109,19 @@ Print Assumptions C17_parse_escape.
 
 Print Assumptions C17_lits_match.
 Print Assumptions C17_escape_is_find.
+
+(* embedded in a larger concatenation (pre ++ chain ++ post) the chain behaves as one literal: every
+   result of what precedes is continued exactly when the text contains s there, by |s| bytes, captures
+   untouched, group numbering of what follows unshifted ([cgo] is Sem's fold over a Concat's children) *)
+Theorem C17_embedded : forall cx fuel pre cs post g st, cs <> [] ->
+  sem cx (Concat (pre ++ map lit cs ++ post)) fuel g st =
+  flat_map (fun s1 => if lit_at (c_text cx) (fst s1) (concat cs)
+                      then cgo cx fuel (g + ngroups_list pre) post (fst s1 + length (concat cs), snd s1) else [])
+           (cgo cx fuel g pre st).
+Proof. exact sem_embedded. Qed.
+Check C17_embedded : forall cx fuel pre cs post g st, cs <> [] ->
+  sem cx (Concat (pre ++ map lit cs ++ post)) fuel g st =
+  flat_map (fun s1 => if lit_at (c_text cx) (fst s1) (concat cs)
+                      then cgo cx fuel (g + ngroups_list pre) post (fst s1 + length (concat cs), snd s1) else [])
+           (cgo cx fuel g pre st).
+Print Assumptions C17_embedded.
